@@ -881,3 +881,41 @@ silent('c13-generic-child-discovery', 'C13',
                 if self._undefined_check(rule):
                     return True
         return False""")])
+
+# ------------------------------------------------------------------ C14
+fire('c14-revert-f5-literal', 'C14',
+     [(C, "        except (ValueError, TypeError, SyntaxError, MemoryError,\n                RecursionError):\n            pass", "        except ValueError:\n            pass")], 'C14.COVER')
+fire('c14-revert-f5-walk', 'C14',
+     [(C, "        except (KeyError, TypeError):\n            return False", "        except KeyError:\n            return False")], 'C14.COVER')
+fire('c14-no-roles-guard', 'C14',
+     [(C, "        if 'roles' in creds:\n            return match.lower() in [x.lower() for x in creds['roles']]\n        return False",
+       "        return match.lower() in [x.lower() for x in creds['roles']]")], 'C14.COVER')
+fire('c14-rule-lookup-unguarded', 'C14',
+     [(C, "        except KeyError:\n            # We don't have any matching rule; fail closed\n            return False",
+       "        except AttributeError:\n            # We don't have any matching rule; fail closed\n            return False")], 'C14.COVER')
+fire('c14-role-subst-unguarded', 'C14',
+     [(C, """        try:
+            match = self.match % target
+        except KeyError:
+            # While doing RoleCheck if key not
+            # present in Target return false
+            return False
+        if 'roles' in creds:""", """        match = self.match % target
+        if 'roles' in creds:""")], 'C14.COVER')
+fire('c14-new-unguarded-subscript', 'C14',
+     [(C, "        path_segments = self.kind.split('.')\n        return self._find_in_dict(creds, path_segments, match)",
+       "        path_segments = self.kind.split('.')\n        if creds['is_admin']:\n            return True\n        return self._find_in_dict(creds, path_segments, match)")], 'C14.COVER')
+fire('c14-handler-reraises', 'C14',
+     [(C, "        except (KeyError, TypeError):\n            return False", "        except (KeyError, TypeError):\n            raise")], 'C14.COVER')
+silent('c14-except-exception', 'C14',
+       [(C, "        except (KeyError, TypeError):\n            return False", "        except Exception:\n            return False")])
+silent('c14-lookup-error', 'C14',
+       [(C, "        except KeyError:\n            # We don't have any matching rule; fail closed", "        except LookupError:\n            # We don't have any matching rule; fail closed")])
+silent('c14-hoisted-try', 'C14',
+       [(C, """        try:
+            test_value = test_value[key]
+        except (KeyError, TypeError):
+            return False
+""", """        test_value = test_value[key]
+"""), (C, "        path_segments = self.kind.split('.')\n        return self._find_in_dict(creds, path_segments, match)",
+       "        path_segments = self.kind.split('.')\n        try:\n            return self._find_in_dict(creds, path_segments, match)\n        except (KeyError, TypeError):\n            return False")])
